@@ -40,12 +40,12 @@ import (
 	"strings"
 )
 
-const version = "hazards-v8"
+const version = "hazards-v9"
 
 var scopeDirs = []string{"app", "x", "adapter", "syscontracts", "types", "ibc"}
 
 type site struct {
-	File, Func, Kind, Hash, Text string
+	File, Func, Kind, Hash, FnHash, Text string
 }
 
 type hazard struct {
@@ -260,14 +260,14 @@ func main() {
 	for _, e := range firstErrs {
 		fmt.Fprintf(&b, "(* type error: %s *)\n", strings.ReplaceAll(strings.ReplaceAll(e, "(*", "( *"), "*)", "* )"))
 	}
-	fmt.Fprintf(&b, "\n(* range over a map (kind \"map\") or over an expression of undetermined type (kind \"unknown\"):\n   (file, function, kind, sha256 prefix of the normalised statement, normalised statement) *)\n")
-	fmt.Fprintf(&b, "Definition map_range_sites : list (string * string * string * string * string) := [\n")
+	fmt.Fprintf(&b, "\n(* range over a map (kind \"map\") or over an expression of undetermined type (kind \"unknown\"):\n   (file, function, kind, sha256 prefix of the normalised statement, sha256 prefix of the normalised enclosing\n   function declaration — what happens to the loop's result afterwards (e.g. a sort) is part of the obligation —,\n   normalised statement) *)\n")
+	fmt.Fprintf(&b, "Definition map_range_sites : list (string * string * string * string * string * string) := [\n")
 	for i, s := range sites {
 		sep := ";"
 		if i == len(sites)-1 {
 			sep = ""
 		}
-		fmt.Fprintf(&b, "  (%s, %s, %s, %s,\n   %s)%s\n", q(s.File), q(s.Func), q(s.Kind), q(s.Hash), q(s.Text), sep)
+		fmt.Fprintf(&b, "  (%s, %s, %s, %s, %s,\n   %s)%s\n", q(s.File), q(s.Func), q(s.Kind), q(s.Hash), q(s.FnHash), q(s.Text), sep)
 	}
 	fmt.Fprintf(&b, "].\n\n(* every other construct whose value is not a function of the block inputs:\n   (file, function, kind, detail, number of occurrences in that function) *)\n")
 	fmt.Fprintf(&b, "Definition other_hazards : list (string * string * string * string * N) := [\n")
@@ -381,6 +381,7 @@ type walker struct {
 	info   *types.Info
 	file   string
 	fn     string
+	fnHash string
 	sites  []site
 	hz     map[[4]string]int
 	nRange int
@@ -404,6 +405,8 @@ func (w *walker) walkFile(f *ast.File) {
 		switch d := d.(type) {
 		case *ast.FuncDecl:
 			w.fn = recvName(d)
+			fsum := sha256.Sum256([]byte(w.norm(&ast.FuncDecl{Recv: d.Recv, Name: d.Name, Type: d.Type, Body: d.Body})))
+			w.fnHash = hex.EncodeToString(fsum[:8])
 			if d.Body != nil {
 				ast.Inspect(d.Body, w.visit)
 			}
@@ -419,6 +422,8 @@ func (w *walker) walkFile(f *ast.File) {
 						nm = sp.Names[0].Name
 					}
 					w.fn = "<package-level " + nm + ">"
+					vsum := sha256.Sum256([]byte(w.norm(sp)))
+					w.fnHash = hex.EncodeToString(vsum[:8])
 					ast.Inspect(sp, w.visit)
 				case *ast.TypeSpec:
 					w.fn = "<type " + sp.Name.Name + ">"
@@ -506,7 +511,7 @@ func (w *walker) visit(n ast.Node) bool {
 		if kind != "" {
 			txt := w.norm(n)
 			sum := sha256.Sum256([]byte(txt))
-			w.sites = append(w.sites, site{w.file, w.fn, kind, hex.EncodeToString(sum[:8]), txt})
+			w.sites = append(w.sites, site{w.file, w.fn, kind, hex.EncodeToString(sum[:8]), w.fnHash, txt})
 		}
 	case *ast.GoStmt:
 		w.add("go-stmt", "go")
